@@ -883,6 +883,9 @@ class Sim:
         elif op == "tr":
             _, tag, inps, outs = action
             contents = [self._read(proc, p) for p in inps]
+            if any(b"!fail" in c for c in contents):
+                # a command that fails on bad input, before it writes anything
+                raise ScriptExit(1, "bad input")
             for out in outs:
                 self._write_data(proc, out, self._derive(proc, tag, out, contents))
         elif op == "cp":
